@@ -55,7 +55,7 @@ func c04Events(p c04Params) []string {
 	}
 	// a backend that accepts and never answers in time: the failure arrives as a timeout error;
 	// and one whose 500 follows an interim response (103 Early Hints): a failed response all the same
-	ev = append(ev, "flip-timeout:b0", "flip-103+500:b0")
+	ev = append(ev, "flip-timeout:b0", "flip-103+500:b0", "flip-500ra:b0")
 	// a backend whose failing answers take 11 s: the unhealthy window starts when the failure is
 	// known, not when the request was sent
 	ev = append(ev, "flip-slow+500:b0")
@@ -203,7 +203,7 @@ func (in *c04Inst) Step(ev int) *vh.HViol {
 		bad := e[len("flip-"):strings.Index(e, ":")]
 		st := in.k.stub(e[strings.Index(e, ":")+1:])
 		if st.mode == "ok" {
-			st.mode, st.probeMode = bad, strings.TrimPrefix(strings.TrimPrefix(bad, "103+"), "slow+")
+			st.mode, st.probeMode = bad, strings.TrimSuffix(strings.TrimPrefix(strings.TrimPrefix(bad, "103+"), "slow+"), "ra")
 		} else {
 			st.mode, st.probeMode = "ok", "ok"
 		}
@@ -384,9 +384,9 @@ func TestVerifC04H(t *testing.T) {
 			t.Fatal(err)
 		}
 	}()
-	depth := 8
+	depth := 7
 	if vres.Thorough() {
-		depth = 11
+		depth = 10
 	}
 	if vres.ReplayPath() != "" {
 		var rp vh.HReplay
@@ -426,6 +426,14 @@ func TestVerifC04H(t *testing.T) {
 			i++
 		}
 	}
+	// a long-lived process: many backend names have come and gone through the admin API before
+	// the ejection (tables keyed by backend name have a history then)
+	for _, churn := range []int{10, 999, 1100} {
+		if vh.MyShard(i) {
+			c04Churn(r, churn)
+		}
+		i++
+	}
 	if vres.Thorough() {
 		for _, strat := range allStrategies {
 			if vh.MyShard(i) {
@@ -438,4 +446,48 @@ func TestVerifC04H(t *testing.T) {
 			i++
 		}
 	}
+}
+
+// c04Churn: churn names are added and removed again, then b0 is ejected (one failed response,
+// threshold 1): both endpoints must report it unhealthy and it must get no traffic.
+func c04Churn(r *vres.Report, churn int) {
+	start := time.Now()
+	var evals int64
+	vh.RunSeq(r, "C04/sequential", func(s *vrt.Sched) {
+		k := newKit(s, kitOpts{Strategy: "round_robin", N: 2, PassiveThr: 1, Window: 10})
+		for i := 0; i < churn; i++ {
+			name := fmt.Sprintf("tmp%04d", i)
+			if err := k.lb.AddBackend(config.BackendConfig{Name: name, Address: "http://" + name + ".test:80"}); err != nil {
+				vh.ToolError("add: %v", err)
+			}
+			k.lb.RemoveBackend(name)
+			evals += 2
+		}
+		k.stub("b0").mode = "500"
+		for i := 0; i < 2; i++ { // round robin: one of the two requests reaches b0
+			k.request("10.0.0.1", nil)
+		}
+		k.stub("b0").mode = "ok"
+		desc := fmt.Sprintf("after %d backend names were added and removed again, b0 answered 500 (threshold 1)", churn)
+		for _, bi := range k.lb.ListBackends() {
+			if bi.Name == "b0" && bi.Healthy {
+				r.Violate("C04/not-ejected-after-threshold/after-churn", desc+": /v1/backends still lists it healthy", churn, nil)
+				return
+			}
+		}
+		if bm, ok := k.lb.GetMetricsCollector().GetMetrics().BackendMetrics["b0"]; !ok || bm.IsHealthy {
+			r.Violate("C04/reported-healthy-inside-window/metrics/after-churn", fmt.Sprintf("%s and is ejected, but the metrics / health endpoint reports it healthy (entry present: %v)", desc, ok), churn, map[string]interface{}{"engine": "H", "test": "TestVerifC04H", "churn": churn})
+			return
+		}
+		before := k.stub("b0").hits
+		for i := 0; i < 4; i++ {
+			k.request("10.0.0.1", nil)
+			evals++
+		}
+		if k.stub("b0").hits != before {
+			r.Violate("C04/traffic-inside-window/after-churn", desc+" and is ejected, but it still receives client requests", churn, nil)
+		}
+	})
+	r.AddScenario(vres.Scenario{Name: fmt.Sprintf("health-after-%d-names-churned", churn), Engine: "H", Executions: 1, States: 1, Transitions: evals, Outcomes: 1,
+		Bound: fmt.Sprintf("%d names added and removed through AddBackend/RemoveBackend, then one ejection", churn), Exhaustive: true, Extra: map[string]interface{}{"wall_s": time.Since(start).Seconds()}})
 }
